@@ -51,12 +51,13 @@ const (
 )
 
 var (
-	errNoAuthenticator      = errors.New("packet does not contain an authenticator")
-	errNoCookies            = errors.New("packet does not contain cookies")
-	errNoUniqueID           = errors.New("packet does not contain a unique identifier")
-	errShortUniqueID        = errors.New("UniqueIdentifier.ID < 32 bytes")
-	errUnexpectedExtHdrType = errors.New("unexpected extension header type")
-	errUnexpectedResponseID = errors.New("unexpected response ID")
+	errNoAuthenticator        = errors.New("packet does not contain an authenticator")
+	errNoCookies              = errors.New("packet does not contain cookies")
+	errNoUniqueID             = errors.New("packet does not contain a unique identifier")
+	errShortUniqueID          = errors.New("UniqueIdentifier.ID < 32 bytes")
+	errUnexpectedExtHdrLength = errors.New("unexpected extension header length")
+	errUnexpectedExtHdrType   = errors.New("unexpected extension header type")
+	errUnexpectedResponseID   = errors.New("unexpected response ID")
 )
 
 // A Packet contains the NTP extension fields for a NTS secured NTP request or response.
@@ -144,6 +145,9 @@ func DecodePacket(pkt *Packet, b []byte) (err error) {
 	for len(b)-pos >= 28 && !foundAuthenticator {
 		var eh extHdr
 		eh.unpack(b, pos)
+		if eh.Length < 4 {
+			return errUnexpectedExtHdrLength
+		}
 		pos += 4
 
 		switch eh.Type {
@@ -224,6 +228,9 @@ func (pkt *Packet) authenticate(b []byte, key []byte) error {
 	for len(decrytedBuf)-pos >= 28 {
 		var eh extHdr
 		eh.unpack(decrytedBuf, pos)
+		if eh.Length < 4 {
+			return errUnexpectedExtHdrLength
+		}
 		pos += 4
 
 		switch eh.Type {
